@@ -557,7 +557,7 @@ func c08CLI(c *Ctx) {
 func init() {
 	register(&PropDef{
 		ID: "C08", Level: "fault_enumeration",
-		Rule:        "inputs of 6 and 40 lines (command lines of three kinds, other components, non-JSON text, blanks; with and without final newline) on the real stream code; reader faults: chunk sizes {1,7,512,4096} x EVERY Read call index failing, cleanly or together with that call's data, through the reader and the file entry points; writer faults: EVERY Write call index x {error, one byte short, half accepted} x {later writes succeed, fail} through reader, file and gzip entry points; gzip: the compressed stream cut at EVERY byte offset, each byte XOR 0xFF and (6-line input / thorough) each single bit flipped, judged against an independent compress/gzip reading of the same bytes; CLI: stdout and --outputFile on /dev/full for file / gzip / stdin input, stdout a pipe closed by its reader, damaged .gz files at every 16th (thorough: every) offset. Oracle: a surfaced fault => error return / non-zero exit; bytes accepted by the writer are a byte prefix of the fault-free output; after a read fault the output is a whole-line prefix of the fault-free lines (for damaged gzip: of the redaction of the complete lines actually delivered). distinct = distinct (input, fault) pairs",
+		Rule:        "inputs of 6 and 40 lines (command lines of three kinds, other components, non-JSON text, blanks; with and without final newline) on the real stream code; reader faults: chunk sizes {1,7,512,4096} x EVERY Read call index failing, cleanly or together with that call's data, through the reader and the file entry points; writer faults: EVERY Write call index x {error, one byte short, half accepted} x {later writes succeed, fail} through reader, file and gzip entry points; gzip: the compressed stream cut at EVERY byte offset, each byte XOR 0xFF and (6-line input / thorough) each single bit flipped, judged against an independent compress/gzip reading of the same bytes; CLI: stdout and --outputFile on /dev/full for file / gzip / stdin input, stdout a pipe closed by its reader, damaged .gz files at every 16th (thorough: every) offset. Oracle: a surfaced fault => error return / non-zero exit; bytes accepted by the writer are a byte prefix of the fault-free output; after a read fault the output is a whole-line prefix of the fault-free lines (for damaged gzip: of the redaction of the complete lines actually delivered). distinct = distinct (input, fault) pairs" + "; inputs holding a 70 000- / 200 000-byte line (beyond the line limit) under the same Read-index and gzip-cut enumeration; /dev/full on stdout / --outputFile at 1, 50, 400, 2 000, 6 000 (thorough 20 000) input lines from file and stdin",
 		Assumptions: []string{"for flipped gzip bytes 'fault-free' is read relative to the bytes the decompressor delivered before failing (DESIGN.md 3.0 / section 5)", "a damaged stream that an independent reader still accepts must be processed completely or rejected"},
 		Run:         c08Run,
 	})
